@@ -600,8 +600,8 @@ CHECKS["C20"]["harnesses"].append(
     {"probe": "fed", "harness": "Harness_C20_entities", "setup": "Setup_C20_entities", "reach": ["c20.compared"], "workers": 12, "race": True, "tag": "-schedfail",
      "configs_quick": ["fed_single"], "configs_thorough": ["fed_single", "fed_wl2"], "sched_confirm": True,
      "quick": {"params": {"maxreps": 3, "budget": 0, "shapes": 3, "gated": 1, "failing": 1}, "sample_models": 10, "sample_every": 17},
-     "thorough": {"params": {"maxreps": 4, "budget": 0, "shapes": 3, "gated": 1, "failing": 1}, "sample_models": 20, "sample_every": 97},
-     "what": "lists of 0..3 [4] representations over {a type's representation without any key, a resolvable one, an unknown type}: several failing representations of one type in one request, every completion order of the entity goroutines, race check: one error per failed representation"})
+     "thorough": {"params": {"maxreps": 3, "budget": 0, "shapes": 3, "gated": 1, "failing": 1}, "sample_models": 20, "sample_every": 97},
+     "what": "lists of 0..3 representations over {a type's representation without any key, a resolvable one, an unknown type}: several failing representations of one type in one request, every completion order of the entity goroutines, race check: one error per failed representation"})
 
 # requests that are refused must not make gqlgen's own code panic later either: the two-request sequences (query cache on / off) with
 # the recover hook asserted silent (C10's clause over histories)
